@@ -86,6 +86,11 @@ func (h *connectHandler) ContentTypes() map[string]struct{} {
 func (*connectHandler) SetTimeout(request *http.Request) (context.Context, context.CancelFunc, error) {
 	timeout := request.Header.Get(connectHeaderTimeout)
 	if timeout == "" {
+		if len(request.Header.Values(connectHeaderTimeout)) > 0 {
+			// Not the same as no header: the client asked for a timeout and sent
+			// an empty number.
+			return nil, nil, errorf(CodeInvalidArgument, "parse timeout: header %s has no value", connectHeaderTimeout)
+		}
 		return request.Context(), nil, nil
 	}
 	if len(timeout) > 10 {
